@@ -419,6 +419,10 @@ def run(rep: Report, tier: str) -> None:  # noqa: C901
                 if flt:
                     rep.add(transp.fnd("R07.8", "numbering-loop", vhr, n.lineno,
                                        f"visit_HRuleset numbers only a filtered subset of the rules (`{flt}`): sort_elements indexes the rule list by these numbers, so the other rules are dropped or mis-ordered"))
+    # ---- R07.9 a validation operator leaves its operands (the validated dataset, the imbalance dataset) as it found them ----
+    rep.rule("R07.9", "check / check_datapoint / check_hierarchy validators do not mutate the structure of their operands")
+    from sa.checks.c12 import operand_mutations
+    operand_mutations(P, rep, "R07.9", ("vtlengine.Operators.Validation", "vtlengine.Operators.HROperators"), floor=3)
     rep.assumptions = ["SQL three-valued logic (Kleene) for AND/OR/NOT, IS [NOT] FALSE, CASE", "the pivot column naming helpers _has_col / _val_col are the only producers of those names"]
 
 
